@@ -31,9 +31,29 @@ package b6
 //@   trusted
 //@   ensures result != nil
 // An iterator's own methods do not write the state of the collection object that wraps it.
+// Abstract view of an iterator (ghost state, assumed for every implementation): it walks
+// a fixed sequence of items; the int ghost field "pos" is the index of the current item
+// (each Next moves it by one); VerifIterKey(it, i) is the order rank (VerifAnyRank) of the key of
+// item i. b6.Less / b6.Equal compare by rank when they report no error.
 //@ func Iterator.Next
 //@   trusted
+//@   gset pos self = old(ghostf("pos", self)) + 1
 //@ func Iterator.Key
 //@   trusted
+//@   ensures VerifAnyRank(result) == VerifIterKey(self, ghostf("pos", self))
 //@ func Iterator.Value
 //@   trusted
+
+//@ func VerifAnyRank
+//@   opaque
+//@ func VerifIterKey
+//@   opaque
+
+//@ func Less
+//@   trusted
+//@   pure
+//@   ensures implies(result1 == nil, result0 == (VerifAnyRank(a) < VerifAnyRank(b)))
+//@ func Equal
+//@   trusted
+//@   pure
+//@   ensures implies(result1 == nil, result0 == (VerifAnyRank(a) == VerifAnyRank(b)))
